@@ -21,6 +21,7 @@ func runC14(c *core.Ctx) {
 	h.openHandlesEveryFile("C14.5 open-segments")
 	c.Clause("C14.6 the walks that flush, close or dispose of the segment chain visit every segment and stop only at the chain's end, a clean segment (CommitN) or an error")
 	h.segmentWalks("C14.6 segment-walks")
+	h.unlinkBeforeRemove("C14.6b unlink-before-remove")
 	c.Clause("C14.7 no error of a file, mapping or segment operation inside the log package is dropped (a failed flush must not be reported as a completed commit)")
 	h.storageErrorsNotLost("C14.7 storage-errors")
 }
@@ -40,4 +41,5 @@ func runC13(c *core.Ctx) {
 	h.observers("C13.5 observers")
 	c.Clause("C13.6 Reset/Close/CommitN walk the whole chain; Reset removes every old segment before it creates the new one")
 	h.segmentWalks("C13.6 segment-walks")
+	h.unlinkBeforeRemove("C13.7 unlink-before-remove")
 }
